@@ -1743,7 +1743,14 @@ class Alias(ObjectAliasMixin):
                 raise CyclicAliasError([self.target_path, *error.chain]) from error
         self._target = resolved
         if self.parent is not None:
-            self._target.aliases[self.path] = self  # type: ignore[union-attr]
+            try:
+                self._target.aliases[self.path] = self  # type: ignore[union-attr]
+            except (AliasResolutionError, CyclicAliasError):
+                # The target is an alias that was linked without being resolved
+                # (wildcard expansion does that) and the rest of its chain
+                # cannot be resolved: the whole chain stays unresolved.
+                self._target = None
+                raise
 
     def _update_target_aliases(self) -> None:
         with suppress(AttributeError, AliasResolutionError, CyclicAliasError):
